@@ -99,9 +99,9 @@ class Evaluator:
                 return self.vars[n['decl']]
             if isinstance(state, frozenset):
                 # store of re-assigned boolean locals carried by sink_reachability(..., track=evaluator)
-                for d, v in state:
-                    if d == ('var', n['decl']):
-                        return v
+                for item in state:
+                    if isinstance(item, tuple) and len(item) == 2 and item[0] == ('var', n['decl']):
+                        return item[1]
             if n.get('vk') == 'local' and not n.get('outer'):
                 d = fn.single_def(n['decl'])
                 if d is not None:
